@@ -307,6 +307,10 @@ class PluginGroup(Generic[T], metaclass=PluginGroupMeta):
     ) -> Union[Type[T], PRX, None]:
         if self._is_foreign(key):
             return None  # e.g. a reference to a plugin of a different group
+        # a plugin class that was itself retrieved without a version states none
+        from_marked = version is None and (
+            isinstance(key, type) and UndefVersion._is_marked(key)
+        )
         key_, version = plugin_args(key, version)
 
         # retrieve compatible plugin
@@ -315,7 +319,7 @@ class PluginGroup(Generic[T], metaclass=PluginGroupMeta):
         except KeyError:
             return None
 
-        if version is None:
+        if version is None or from_marked:
             # no version constraint was passed or inferred -> mark it
             ret = UndefVersion._mark_class(ret)
 
